@@ -56,6 +56,11 @@ theorem later_ops_send_nothing (c : C) (i code : Nat) (ch : Chan) (hi : c.chans[
 /-- the early-return guard of `Channel.close()` is `not self.is_open` (regenerated) -/
 theorem gen_close_guard : Gen.Close.closeBacksOffUnlessOpen = true := by decide
 
+/-- `Channel.close()` sends its Channel.Close also when cancelling a consumer failed, and waits for CloseOk
+    judged by the connection only: an error parked on the closing channel cannot abort the handshake
+    (regenerated; the model's `chanClose` sends the frame and ends with the RPC's outcome whatever `cancelsFail` is) -/
+theorem gen_close_request : Gen.Close.closeSentEvenIfCancelFails = true ∧ Gen.Close.closeWaitJudgedByConnection = true := by decide
+
 /-- `stop_consuming` sends a Basic.Cancel for every consumer that was active -/
 theorem stop_cancels_all (tags : List String) : stopConsuming tags = tags := by
   simp [stopConsuming, gen_flags.2.1]
